@@ -229,6 +229,19 @@ pub const WCOMBOS: &[(u8, u8, u8)] = &[
     (7, 8, 4),
 ];
 
+/// reader-supported pairs the writer cannot reproduce (finding c07.writer-unsupported-layout)
+pub const D9COMBOS: &[(u8, u8, u8)] = &[
+    (4, 13, 4),
+    (4, 8, 4),
+    (1, 17, 8),
+    (2, 17, 8),
+    (5, 8, 0),
+    (1, 5, 4),
+    (0, 2, 12),
+    (3, 14, 8),
+    (7, 8, 4),
+];
+
 pub fn name(rng: &mut Rng, latin1: bool) -> Vec<u8> {
     let n = match rng.below(8) {
         0 => 0,
@@ -330,7 +343,16 @@ fn half_non_nan(rng: &mut Rng) -> u16 {
 /// canonical raw bytes of one element (what the writer reproduces), see `Spec/MdlEdit.lean`
 pub fn canonical_raw(rng: &mut Rng, usage: u8, ty: u8) -> Vec<u8> {
     let mut v = Vec::new();
+    if usage == 5 {
+        return v; // tangents are skipped unread: the slot stays zero
+    }
     match ty {
+        13 => {
+            for _ in 0..2 {
+                v.extend_from_slice(&half_non_nan(rng).to_le_bytes());
+            }
+        }
+        17 => v.extend_from_slice(&rng.bytes(8)),
         2 => {
             for _ in 0..3 {
                 v.extend_from_slice(&interesting_f32(rng).to_le_bytes());
@@ -568,18 +590,21 @@ pub fn gen_model(rng: &mut Rng, o: &GenOpts) -> GModel {
                 let mut pushed = 0u32;
                 for _ in 0..nv {
                     let ni = mesh.indices.len();
-                    let base = if ni > start && !rng.chance(1, 40) {
+                    if o.canonical && (ni <= start || mesh.vcount == 0) {
+                        continue; // C07: shape tables always refer inside the mesh
+                    }
+                    let base = if ni > start && (o.canonical || !rng.chance(1, 40)) {
                         start + rng.below((ni - start) as u64) as usize
                     } else if ni > 0 && !rng.chance(1, 12) {
                         start + rng.below(ni as u64) as usize
                     } else {
                         rng.below(70) as usize
                     };
-                    let repl = if mesh.vcount > 0 && !rng.chance(1, 60) { rng.below(mesh.vcount as u64) as u16 } else { rng.below(400) as u16 };
+                    let repl = if mesh.vcount > 0 && (o.canonical || !rng.chance(1, 60)) { rng.below(mesh.vcount as u64) as u16 } else { rng.below(400) as u16 };
                     m.shv.push((base as u16, repl));
                     pushed += 1;
                 }
-                let off = if rng.chance(1, 10) { rng.below(40) as u32 } else { start as u32 };
+                let off = if !o.canonical && rng.chance(1, 10) { rng.below(40) as u32 } else { start as u32 };
                 m.shm.push((off, pushed, voff));
             }
         }
